@@ -170,7 +170,7 @@ def run(ctx):
                 add("dag:" + c, "shared-subarray-dag:w%d-d%d" % (w, d), dag(w, d) + nv.CONSUMERS[c]())
         for (w, d) in ((64, 6), (1024, 3)):
             for c in ("ser", "notify", "equal"):
-                add("dag:" + c, "shared-subarray-dag:w%d-d%d" % (w, d), dag(w, d) + nv.CONSUMERS[c](), "single")
+                add("dag:" + c, "shared-subarray-dag:w%d-d%d" % (w, d), dag(w, d) + nv.CONSUMERS[c](), "single", modes=(False, True) if ctx.thorough else (False,))
             add("dag:native", "shared-subarray-dag", dag(w, d) + nv.CONSUMERS["native"](), "single")
         n_rand = 4000 if ctx.thorough else 300
         for i in range(n_rand):
@@ -195,10 +195,10 @@ def run(ctx):
     n_each = 6 if ctx.thorough else 2
     picked = []
     slow_all = [p for k in sorted(by) if k[0] == "slow" for p in by[k]]
-    picked += ctx.rng.sample(slow_all, min(len(slow_all), 6 * n_each))
+    picked += ctx.rng.sample(slow_all, min(len(slow_all), 3 * n_each))
     for k in sorted(by):
         if k[0] != "slow":
-            picked += ctx.rng.sample(by[k], min(len(by[k]), n_each if k[0] == "fatal" else 3 * n_each))
+            picked += ctx.rng.sample(by[k], min(len(by[k]), n_each if k[0] == "fatal" else 2 * n_each))
     singles = [p for p in progs if p["pred"] == "single"]
     res2 = []
     deaths2 = 0
